@@ -4,6 +4,8 @@ From Coq Require Import ZArith Bool.
 From Flocq Require Import Core IEEE754.BinarySingleNaN.
 From Flocq Require IEEE754.Binary IEEE754.Bits.
 From Errdef Require Import Base.Str Base.Outcome.
+From Errdef Require Gen.Bounds.
+Module Bounds := Errdef.Gen.Bounds.
 Local Open Scope Z_scope.
 
 (* ---------- types and values as far as binding looks at them ---------- *)
@@ -148,8 +150,9 @@ Definition f64_to_f32 (f : b64) : b32 :=
   | B754_finite s m e _ => binary_normalize 24 128 eq_refl eq_refl mode_NE (if s then Zneg m else Zpos m) e s
   end.
 
-(* tryConvertFloat64 *)
-Definition conv_f64 (k : skind) (bits : Z) : option sval :=
+(* tryConvertFloat64: the hand-written reference the theorems were developed against; the MODEL is
+   conv_f64 below, an interpreter of the clause tables srcgen extracts from converter.go *)
+Definition conv_f64_ref (k : skind) (bits : Z) : option sval :=
   let f := f64_of_bits bits in
   if is_signed k then
     if negb (is_integral f) then None
@@ -177,8 +180,8 @@ Definition i64_to_f64 (z : Z) : b64 := binary_normalize 53 1024 eq_refl eq_refl 
 Definition f32_to_i64_amd64 (f : b32) : Z :=
   let z := to_Z f in if (z >=? two63) || (z <? - two63) then - two63 else z.
 
-(* tryConvertInt64 (64-bit int/uint) *)
-Definition conv_i64 (k : skind) (z : Z) : option sval :=
+(* tryConvertInt64 (64-bit int/uint): reference, see conv_i64 below *)
+Definition conv_i64_ref (k : skind) (z : Z) : option sval :=
   if is_signed k then
     if (z <? int_min k) || (z >? int_max k) then None else Some (SInt z)
   else if is_unsigned k then
@@ -188,6 +191,131 @@ Definition conv_i64 (k : skind) (z : Z) : option sval :=
                 if f32_to_i64_amd64 f =? z then Some (SF32 (bits_of_f32 f)) else None
   | KFloat64 => Some (SF64 (bits_of_f64 (i64_to_f64 z)))
   | _ => None
+  end.
+
+
+(* ---------- the model proper: interpretation of Gen/Bounds.v ---------- *)
+(* Gen/Bounds.v is regenerated from unmarshaler/converter.go on every run: per clause of the outer
+   `switch kind` the kinds served, the guards in source order (a true guard declines), the per-kind
+   (min, max) table, the declared type of min/max and the operand of the final conversion. *)
+Definition skind_name (k : skind) : string :=
+  match k with
+  | KBool => "Bool" | KString => "String"
+  | KInt => "Int" | KInt8 => "Int8" | KInt16 => "Int16" | KInt32 => "Int32" | KInt64 => "Int64"
+  | KUint => "Uint" | KUint8 => "Uint8" | KUint16 => "Uint16" | KUint32 => "Uint32" | KUint64 => "Uint64"
+  | KFloat32 => "Float32" | KFloat64 => "Float64"
+  end.
+
+Definition find_clause (cls : list Bounds.clause) (k : skind) : option Bounds.clause :=
+  find (fun cl => existsb (str_eqb (skind_name k)) (Bounds.cl_kinds cl)) cls.
+
+(* a kind missing from the inner switch leaves `var min, max` at their zero values *)
+Definition clause_bounds (cl : Bounds.clause) (k : skind) : Z * Z :=
+  match find (fun e => str_eqb (fst e) (skind_name k)) (Bounds.cl_bounds cl) with
+  | Some (_, b) => b
+  | None => (0, 0)
+  end.
+
+Definition cmp_f (c : Bounds.cmpop) (a b : b64) : bool :=
+  match c with
+  | Bounds.CLt => Bltb a b | Bounds.CGt => Bltb b a
+  | Bounds.CLe => Bleb a b | Bounds.CGe => Bleb b a
+  | Bounds.CEq => Beqb a b | Bounds.CNe => negb (Beqb a b)
+  end.
+Definition cmp_z (c : Bounds.cmpop) (a b : Z) : bool :=
+  match c with
+  | Bounds.CLt => a <? b | Bounds.CGt => a >? b
+  | Bounds.CLe => a <=? b | Bounds.CGe => a >=? b
+  | Bounds.CEq => a =? b | Bounds.CNe => negb (a =? b)
+  end.
+
+(* operands of a guard in tryConvertFloat64: min/max are float64 variables, so the integer
+   constants assigned to them are converted to float64 (round to nearest even) *)
+Definition f64_operand (f : b64) (mm : Z * Z) (p : Bounds.operand) : option b64 :=
+  match p with
+  | Bounds.PVal => Some f
+  | Bounds.PMin => Some (f64c (fst mm))
+  | Bounds.PMax => Some (f64c (snd mm))
+  | Bounds.PConst z => Some (f64c z)
+  | Bounds.PAbsVal => Some (Babs f)
+  | Bounds.PMaxFloat32 => Some (f64_of_bits max_float32_bits64)
+  | _ => None
+  end.
+(* a guard the translator did not recognise declines everything (the bridge lemma then fails) *)
+Definition f64_guard (f : b64) (mm : Z * Z) (g : Bounds.guard) : bool :=
+  match g with
+  | Bounds.GModf => negb (is_integral f)
+  | Bounds.GCmp l c r =>
+      match f64_operand f mm l, f64_operand f mm r with
+      | Some a, Some b => cmp_f c a b
+      | _, _ => true
+      end
+  | Bounds.GUnknown _ => true
+  end.
+
+Fixpoint run_guards {G} (ev : G -> bool) (gs : list G) (k : option sval) : option sval :=
+  match gs with
+  | [] => k
+  | g :: r => if ev g then None else run_guards ev r k
+  end.
+
+Definition bty_ok (cl : Bounds.clause) (want : string) : bool :=
+  match Bounds.cl_bounds cl with [] => true | _ => str_eqb (Bounds.cl_bty cl) want end.
+
+(* tryConvertFloat64 *)
+Definition conv_f64 (k : skind) (bits : Z) : option sval :=
+  let f := f64_of_bits bits in
+  match find_clause Bounds.f64_clauses k with
+  | None => None
+  | Some cl =>
+      if negb (bty_ok cl "float64" && str_eqb (Bounds.cl_conv cl) "f64") then None
+      else
+        run_guards (f64_guard f (clause_bounds cl k)) (Bounds.cl_guards cl)
+          (if is_signed k || is_unsigned k then Some (SInt (f64_to_int_amd64 k (to_Z f)))
+           else match k with
+                | KFloat32 => Some (SF32 (bits_of_f32 (f64_to_f32 f)))
+                | KFloat64 => Some (SF64 bits)
+                | _ => None
+                end)
+  end.
+
+Definition i64_operand (z : Z) (mm : Z * Z) (p : Bounds.operand) : option Z :=
+  match p with
+  | Bounds.PVal => Some z
+  | Bounds.PMin => Some (fst mm)
+  | Bounds.PMax => Some (snd mm)
+  | Bounds.PConst c => Some c
+  | Bounds.PU64Val => Some (if z <? 0 then z + two64 else z)            (* uint64(i64), i64 an int64 *)
+  | Bounds.PBackI64 => Some (f32_to_i64_amd64 (i64_to_f32 z))          (* int64(float32(i64)) *)
+  | _ => None
+  end.
+Definition i64_guard (z : Z) (mm : Z * Z) (g : Bounds.guard) : bool :=
+  match g with
+  | Bounds.GModf => true
+  | Bounds.GCmp l c r =>
+      match i64_operand z mm l, i64_operand z mm r with
+      | Some a, Some b => cmp_z c a b
+      | _, _ => true
+      end
+  | Bounds.GUnknown _ => true
+  end.
+
+(* tryConvertInt64 (64-bit int/uint: strconv.IntSize == 64) *)
+Definition conv_i64 (k : skind) (z : Z) : option sval :=
+  match find_clause Bounds.i64_clauses k with
+  | None => None
+  | Some cl =>
+      let want_bty := if is_signed k then "int64" else "uint64" in
+      let want_conv := match k with KFloat32 => "f32" | KFloat64 => "float64(i64)" | _ => "i64" end in
+      if negb (bty_ok cl want_bty && str_eqb (Bounds.cl_conv cl) want_conv) then None
+      else
+        run_guards (i64_guard z (clause_bounds cl k)) (Bounds.cl_guards cl)
+          (if is_signed k || is_unsigned k then Some (SInt z)
+           else match k with
+                | KFloat32 => Some (SF32 (bits_of_f32 (i64_to_f32 z)))
+                | KFloat64 => Some (SF64 (bits_of_f64 (i64_to_f64 z)))
+                | _ => None
+                end)
   end.
 
 (* ---------- tryConvertFieldValue ---------- *)
